@@ -26,7 +26,7 @@ LEVEL_TEXT = ("Lean 4 theorems for all graphs (any number of packages, targets, 
               "direct differential runs of filepath.Clean/Join, dag.FindCycle (exact cycle), the unexported path predicates and the memoised "
               "ancestor search, a model-independent reference validator, and grog check / grog build on fixed and generated workspaces.")
 LEVEL_NOTE = ("Trusted: Lean kernel; axioms propext/Classical.choice/Quot.sound; the correspondence harness (sampled beyond the exhaustive bound). "
-              "Paths are compared lexically (as the code does): symlinks and re-entering the workspace root by its own name are not identified. "
+              "Outputs are compared after resolving them from the workspace root (x and ../<rootname>/x are one file); symlinks and escaping parts hidden in glob brace alternatives are outside the model. The command-model theorems (reject_runs_nothing, executes_iff) are statements about runCmd, whose stage order is tied to cmds/*.go only by the CLI matrix. "
               "The groups of the per-tag / per-path maps of detectOutputConflicts are visited in list order by the model (map order in Go); a theorem shows the memo table never changes an answer. Loader-level errors (unparsable labels, "
               "unknown output types) are outside this property (C16). A test target without a command is rejected by the code in the same pass; "
               "the theorem carries that as an explicit extra conjunct.")
@@ -40,6 +40,8 @@ OBLIGATIONS = [
     "Grog.C11.reject_names_present_defect",
     "Grog.C11.reject_runs_nothing",
     "Grog.C11.executes_iff",
+    "Grog.C11.executes_only_after_accept",
+    "Grog.C11.all_diagnostics_name_present_defects",
     "Grog.C11.findCycle_sound",
     "Grog.C11.findCycle_complete",
     "Grog.C11.ancestorSet_eq_reach",
@@ -51,6 +53,9 @@ OBLIGATIONS = [
     "Grog.C11.old_accepts_escaping_dir",
     "Grog.C11.old_rejects_self_overlap",
     "Grog.C11.old_accepts_dot_overlap",
+    "Grog.C11.old_accepts_escaping_glob",
+    "Grog.C11.old_accepts_reentering_overlap",
+    "Grog.C11.resolved_path_spec",
 ]
 ASSUMPTIONS = [
     "workspace root is an absolute path (config.MustFindWorkspaceRoot)",
@@ -79,8 +84,10 @@ def parse_out(spec):
     return {"k": "file", "id": spec}
 
 
-def T(pkg, name, deps=(), outs=(), inputs=(), testonly=False, cmd=True, bin=""):
-    return {"pkg": pkg, "name": name, "deps": [dict(d) for d in deps], "inputs": list(inputs),
+def T(pkg, name, deps=(), outs=(), inputs=(), testonly=False, cmd=True, bin="", globs=()):
+    """inputs: resolved inputs (for a literal input: itself); globs: input patterns with glob characters as the user
+    wrote them (the loader keeps them in UnresolvedInputs and puts their matches into Inputs)"""
+    return {"pkg": pkg, "name": name, "deps": [dict(d) for d in deps], "inputs": list(inputs), "globs": list(globs),
             "outs": [parse_out(o) for o in outs], "bin": bin, "testonly": testonly, "cmd": cmd}
 
 
@@ -111,7 +118,7 @@ def graph(nodes, ws=WS, grouping="single"):
             pkgs.append({"targets": [n] if kind == "t" else [], "aliases": [n] if kind == "a" else []})
     req = {"op": "analysis.analyze", "ws": ws, "pkgs": pkgs}
     if os.environ.get("C11_MODEL_CFG") == "old":    # development aid: compare against the model of the tree before the fix: commits
-        req["cfg"] = {"skipSelf": False, "checkDirs": False, "dotRoot": False}
+        req["cfg"] = {"skipSelf": False, "checkDirs": False, "dotRoot": False, "checkGlobs": False, "resolve": False}
     return req
 
 
@@ -143,9 +150,9 @@ def _norm(parts, rooted):
 
 
 def _inside(p, d):
-    """is path p the directory d or below it? (normalised component lists relative to the workspace root; a path that
-    starts with '..' has left the root and is not inside the root directory [] — paths are compared lexically)"""
-    return p[:len(d)] == d and not (d == [] and p[:1] == [".."])
+    """is path p the directory d or below it? Both are ABSOLUTE normalised component lists (the output resolved from the
+    workspace root and its package), so '../<rootname>/x' and 'x' are the same file and no special cases are needed"""
+    return p[:len(d)] == d
 
 
 def reference_defects(g):
@@ -184,7 +191,7 @@ def reference_defects(g):
     tmap = {lab(x): (k, x) for k, x in nodes}
     is_test = lambda t: t["name"].endswith("test")
     all_outs = lambda t: t["outs"] + ([{"k": "file", "id": t["bin"]}] if t["bin"] else [])
-    opath = lambda t, o: _norm(t["pkg"].split("/") + o["id"].split("/"), False)
+    opath = lambda t, o: _norm(ws + t["pkg"].split("/") + o["id"].split("/"), True)     # where the output really is
     # overlapping outputs of two different targets that are not ordered by dependency
     for i, t in enumerate(targets):
         for u in targets[i + 1:]:
@@ -205,12 +212,16 @@ def reference_defects(g):
                         else:                       # nested directories
                             hit = _inside(pb, pa) or _inside(pa, pb)
                     if hit:
-                        dotdir = pa is not None and ((a["k"] == "dir" and pa == []) or (b["k"] == "dir" and pb == [])) and pa != pb
-                        defects.add(("conflict", "dir-dot" if dotdir else ""))
+                        dotdir = pa is not None and ((a["k"] == "dir" and pa == ws) or (b["k"] == "dir" and pb == ws)) and pa != pb
+                        # does the overlap show only after resolving from the root (a spelling that re-enters the root by name)?
+                        ra = _norm((t if a is o else u)["pkg"].split("/") + a["id"].split("/"), False) if pa is not None else None
+                        rb = _norm((t if b is o else u)["pkg"].split("/") + b["id"].split("/"), False) if pa is not None else None
+                        reenter = pa is not None and ".." in (ra[:1] + rb[:1])
+                        defects.add(("conflict", "reenter" if reenter else ("dir-dot" if dotdir else "")))
     for t in targets:
-        for i in t["inputs"]:
+        for i in t["inputs"] + t.get("globs", []):      # a pattern that climbs out of the package escapes it too
             if i.startswith("/") or _norm(i.split("/"), False)[:1] == [".."]:
-                defects.add(("input-escape", ""))
+                defects.add(("input-escape", "glob" if i in t.get("globs", []) and i not in t["inputs"] else ""))
         for o in all_outs(t):
             if o["k"] == "docker":
                 continue
@@ -229,6 +240,7 @@ def reference_defects(g):
 
 def single_target_overlap(g):
     """does some single target declare two outputs that overlap each other?"""
+    ws = _norm(g["ws"].split("/"), True)
     for k, t in nodes_of(g):
         if k != "t":
             continue
@@ -239,8 +251,8 @@ def single_target_overlap(g):
                     if o["k"] == q["k"] and o["id"] == q["id"]:
                         return True
                     continue
-                po = _norm(t["pkg"].split("/") + o["id"].split("/"), False)
-                pq = _norm(t["pkg"].split("/") + q["id"].split("/"), False)
+                po = _norm(ws + t["pkg"].split("/") + o["id"].split("/"), True)
+                pq = _norm(ws + t["pkg"].split("/") + q["id"].split("/"), True)
                 if o["k"] == "file" and q["k"] == "file":
                     if po == pq:
                         return True
@@ -343,10 +355,17 @@ def sibling_graphs():
                 yield [("t", T(pkg, "owner", [L(pkg, "al")], [dspell, sib_f])), ("a", A(pkg, "al", L(pkg, "inside"))), ("t", b1)]
 
 
+GLOB_SPELLINGS = ["*.txt", "**/*.go", "src/*.c", "a/../*.x", "../*.txt", "/abs/*.txt", "src/../../*.c", "../**", "../?.txt", "./../[ab].c",
+                  "../{x,y}.h", "sub/**/../../../*.c"]
+
+
 def input_graphs():
     for p in ["", "a", "a/b"]:
         for i in INPUT_SPELLINGS:
             yield [("t", T(p, "t", [], ["o"], inputs=["ok.txt", i]))]
+        for g in GLOB_SPELLINGS:
+            yield [("t", T(p, "t", [], ["o"], inputs=["ok.txt"], globs=[g]))]
+            yield [("t", T(p, "t", [], ["o"], inputs=["ok.txt", "m1.txt"], globs=["*.txt", g]))]
 
 
 def test_dep_graphs():
@@ -493,6 +512,10 @@ def sig_of(g, impl, ref):
         # the most specific classes first
         if refk == ["output-escape"] and all(d == "dir" for k, d in ref):
             return "accepted:directory-output-outside-workspace"
+        if refk == ["input-escape"] and all(d == "glob" for k, d in ref):
+            return "accepted:input-glob-pattern-outside-package"
+        if refk == ["conflict"] and all(d == "reenter" for k, d in ref):
+            return "accepted:overlap-of-outputs-spelled-through-the-workspace-root-name"
         if refk == ["conflict"] and all(d == "dir-dot" for k, d in ref):
             return "accepted:overlap-with-directory-output-dot"
         return "accepted:" + ",".join(sorted(set(tags)))
@@ -823,6 +846,14 @@ def run(ctx):
     for pkg in ["", "a", "a/b", "a/", "/r", "..", "."]:
         for out in short:
             freqs.append({"op": "analysis.pathfn", "fn": "cleanout", "pkg": pkg, "out": out})
+    for ws in ["/", "/w", "/w/s", "/w/s/", "/w/../s"]:
+        for pkg in ["", "a", "a/b", "s", "..", "/r"]:
+            for out in short[:364] + ["../s/x", "../../w/s/x", "../../../w/s", "../a/x", "/x", "/../x"]:
+                freqs.append({"op": "analysis.pathfn", "fn": "resolveout", "ws": ws, "pkg": pkg, "out": out})
+    absclean = sorted({"/" + c for c in cleaned if not c.startswith("/") and not c.startswith("..") and c != "."} | {"/"})
+    for a in absclean:
+        for b in absclean:
+            freqs.append({"op": "analysis.pathfn", "fn": "within", "p": a, "d": b})
     cov["pathfn_cases"] = len(freqs)
     areqs = []
     for _ in range(2000 if quick else 8000):
@@ -927,7 +958,7 @@ def write_workspace(root, nodes, trace, files=None):
                 cmds.append("mkdir -p \"$(dirname '%s')\" && printf '#!/bin/sh\\necho \"BIN %s\" >> %s\\n' > '%s' && chmod +x '%s'"
                             % (n["bin"], lab(n), trace, n["bin"], n["bin"]))
             t = {"name": n["name"], "command": " && ".join(cmds), "dependencies": [lab(d) for d in n["deps"]],
-                 "inputs": n["inputs"], "outputs": outs}
+                 "inputs": n["inputs"] + n.get("globs", []), "outputs": outs}
             if n["bin"]:
                 t["bin_output"] = n["bin"]
             tags = (["testonly"] if n["testonly"] else []) + list(n.get("tags", []))
@@ -963,6 +994,9 @@ CLI_CASES = [
     ("file-in-dir", [("t", T("", "a", [], ["dir::d"])), ("t", T("", "b", [], ["d/sub/f"]))], False),
     ("same-image", [("t", T("", "a", [], ["docker::img"])), ("t", T("p", "b", [], ["docker::img"]))], False),
     ("input-escape", [("t", T("p", "a", [], ["o"], inputs=["../secret"]))], False),
+    ("glob-input-escape", [("t", T("p", "a", [], ["o"], inputs=["ok.txt"], globs=["../*.txt"]))], False),
+    ("glob-input-absolute", [("t", T("p", "a", [], ["o"], globs=["/etc/*.conf"]))], False),
+    ("glob-input-inside", [("t", T("p", "a", [], ["o"], inputs=["ok.txt"], globs=["*.txt", "sub/../*.md"]))], True),
     ("output-escape", [("t", T("", "a", [], ["../o"]))], False),
     ("dir-output-escape", [("t", T("p", "a", [], ["dir::../../escaped_dir"]))], False),
     ("test-dep", [("t", T("", "lib", [L("", "x_test")], ["o"])), ("t", T("", "x_test"))], False),
@@ -1009,6 +1043,12 @@ INVALID_CMDS = WHOLE_CMDS + [("build", "//%s/..." % GOOD_PKG), ("build", "//%s:a
                              ("@" + GOOD_PKG, "build", ":app"), ("@" + GOOD_PKG, "build"), ("@" + GOOD_PKG, "check")]
 
 
+# on a VALID workspace: requests that the stages after the analysis must stop (command model `afterAccept` / label lookup
+# of `run`): nothing selected, a pattern without tests under `test`, `run` of a target without binary output or of an
+# undefined label — exit != 0 and nothing ran
+LATER_STAGE_CMDS = [("build", "//nosuchpkg/..."), ("test", "//p/..."), ("run", "//p:a"), ("run", "//p:nosuch"), ("build", "--tag=nosuchtag", "//...")]
+
+
 def cli_smoke(ctx, quick):
     """`grog check|build|test|run` on materialised workspaces. Invalid loaded graph (wherever the defect sits, whatever
     is selected) => exit != 0, a diagnostic, and no command ran; valid => exit 0."""
@@ -1038,7 +1078,7 @@ def cli_smoke(ctx, quick):
         if not valid and not has_good and not files:
             nodes = list(nodes) + good_nodes()                           # defects are monotone: still invalid
         if valid:
-            cmds = list(INVALID_CMDS) if has_good else [("check",)] + ([("build", "//...")] if not name.startswith("gen") else [])
+            cmds = list(INVALID_CMDS) + LATER_STAGE_CMDS if has_good else [("check",)] + ([("build", "//...")] if not name.startswith("gen") else [])
         else:
             cmds = INVALID_CMDS if not files else [("check",), ("build", "//..."), ("test", "//...")]
         for j, cmd in enumerate(cmds):
@@ -1072,6 +1112,11 @@ def cli_smoke(ctx, quick):
         replay = {"kind": "oracle", "oracle": "CLI", "case": name, "command": cs, "nodes": nodes, "rc": rc, "ran": ran, "output": out,
                   "selects_only_the_valid_package": partial}
         tag = name + (":" + verb + "-valid-part-only" if partial else "")
+        if valid and cmd in LATER_STAGE_CMDS:
+            if ok_now or ran:
+                ctx.violation("grog %s on a valid workspace should stop before executing (nothing selected / no binary)" % cs, replay,
+                              found_input=False)
+            continue
         if valid and not ok_now:
             ctx.violation("grog %s fails on a valid workspace" % cs, replay, signature="cli-rejected-valid:" + tag)
         if not valid and ok_now:
